@@ -2,6 +2,7 @@ import S2T.Lemmas.SevenZip
 import S2T.Lemmas.Varint
 import S2T.Gen.SevenZip
 import S2T.Props.C10_Header
+import S2T.Props.C10_History
 /-!
 # C10 — Archive members come out as themselves: right bytes, name, order
 
@@ -922,5 +923,53 @@ example :
   intro l hl
   simp only [List.mem_cons, List.mem_nil_iff, or_false] at hl
   rcases hl with rfl | rfl <;> exact ⟨by simp [Method.wf], by decide⟩
+
+/-! ## after any process history (composition with `Props/C10_History.lean`)
+
+`R` is the router behind the module's `lru_cache`s, `hist` the reads that ran before in the process — any number
+of archives of any container type, each as the sequence of cache questions it asked (`β`: whatever they returned).
+The member-loop theorems above are restated for the read run against the store that history left behind. -/
+section history
+open S2T.ArchiveHistory S2T.C10History
+variable {ε ρ β : Type} (R : Router ε ρ) (c : Consts) (ap : Option Str) (hist : List (Prog ε β))
+
+theorem C10_members_tar_after_any_history (hlim : c.maxMemorySize ≤ c.maxArchiveFileSize) (ms : List TarMember)
+    (hread : ∀ m ∈ ms, m.isReg = true → ∃ b, m.read = .data b ∧ m.size = b.length) :
+    (runMemo R (readTarP R c ap ms) (afterReads R Store.empty hist)).1
+      = (ms.filter (tarKeep (envOf R c))).flatMap fun m => alone (envOf R c) ap m.name (tarData m) := by
+  rw [C10_history_free, tar_prog_pure]
+  exact C10_members_tar (envOf R c) ap hlim ms hread
+
+theorem C10_members_zip_after_any_history (hlim : c.maxMemorySize ≤ c.maxArchiveFileSize) (infos : List ZipInfo)
+    (henc : ∀ i ∈ infos, i.isDir = false → i.flagBits &&& 1 = 0)
+    (hread : ∀ i ∈ infos, i.isDir = false → ∃ b, i.read = .data b ∧ i.fileSize = b.length) :
+    (runMemo R (readZipP R c ap infos) (afterReads R Store.empty hist)).1
+      = { yields := (infos.filter (zipKeep (envOf R c))).flatMap fun i => alone (envOf R c) ap i.filename (zipData i),
+          terminal := none } := by
+  rw [C10_history_free, zip_prog_pure]
+  exact C10_members_zip (envOf R c) ap hlim infos henc hread
+
+open S2T.SevenZip in
+/-- the 7z path: whatever `SevenZipReader` / `extractall` do with the file (they touch no process state), the results
+    after any history are those of the single-call model, to which `C10_7z_end_to_end` / `C10_7z_written_end_to_end` apply -/
+theorem C10_7z_after_any_history (file : Bytes) (parse : Bytes → Except Err S2T.SevenZip.R)
+    (needsPw : S2T.SevenZip.R → Bool)
+    (extract : Bytes → S2T.SevenZip.R → Option (List Nat) → Except Err (List (Str × Bytes))) :
+    (runMemo R (read7zP R c ap file parse needsPw extract) (afterReads R Store.empty hist)).1
+      = read7z (envOf R c) ap file parse needsPw extract := by
+  rw [C10_history_free, seven_prog_pure]
+
+/-- the label of a member is made from the path of the archive being read and nothing else: two reads of the same
+    member bytes under two archive paths give the two labels, in either order, after any history -/
+theorem C10_label_is_own_archive (a name : Str) (ha : a ≠ []) (data : Bytes) (base : Str)
+    (hsmall : data.length ≤ c.maxArchiveFileSize) :
+    (runMemo R (processEntryP R c (some a) name data base) (afterReads R Store.empty hist)).1
+      = (R.run (R.getExt base) data (a ++ s "!/" ++ name)).1 := by
+  rw [C10_history_free, processEntry_prog_pure, ← label_eq a name ha]
+  unfold processEntry
+  rw [if_neg (by simp only [envOf]; omega)]
+  rfl
+
+end history
 
 end S2T.C10
